@@ -62,11 +62,25 @@ def get_type_table(ctx, F):
         ctx.fail("C05.D1.tag-table", "get_type:shape", "Frame::get_type is not a single match over the frame kind", b.span)
         return {}
     arms, adt, pl, other, allv = K.arm_map(b, sws[0])
+    # locals whose value is what the function returns (through plain copies, casts and From/Into conversions)
+    retv = {0}
+    grew = True
+    while grew:
+        grew = False
+        for i, j, p, rv, s in b.assigns():
+            if p["l"] in retv and not p["p"] and rv["k"] in ("use", "cast") and rv["op"].get("k") in ("copy", "move") and not rv["op"]["pl"]["p"] and rv["op"]["pl"]["l"] not in retv:
+                retv.add(rv["op"]["pl"]["l"])
+                grew = True
+        for c in b.calls():
+            if c.dest is not None and c.dest["l"] in retv and strip_generics(c.callee) in ("core::convert::From::from", "core::convert::Into::into") and c.args and op_local(c.args[0]) is not None \
+                    and op_local(c.args[0]) not in retv:
+                retv.add(op_local(c.args[0]))
+                grew = True
     table = {}
     for v, blocks in arms.items():
         vals = []
         for i, j, p, rv, s in K.assigns_in(b, blocks):
-            if p["l"] == 0 and not p["p"] and rv["k"] == "use":
+            if p["l"] in retv and not p["p"] and rv["k"] == "use":
                 c = flow.const_of(rv["op"])
                 if c is not None:
                     vals.append((c, rv["op"].get("item"), s["span"]))
@@ -99,6 +113,25 @@ def try_from_table(ctx, F):
             table[val] = (names[0], aggs[0][4]["span"])
         else:
             ctx.fail("C05.D1.tag-table", "try_from:tag%d" % val, "Frame::try_from: tag %d builds %s (expected exactly one frame kind)" % (val, names or "nothing"), b.span)
+    # the decoder refuses a known tag only where the payload encoding itself can be malformed: every `?` of an arm is fed by that arm's
+    # bincode::deserialize; an arm without one (opaque bytes, no payload) cannot fail — the encoder accepts any bytes there
+    ib = F.inlined(b)
+    isw = [i for i, bl in enumerate(ib.blocks) if not bl.get("cleanup") and bl["term"]["k"] == "switch" and bl["term"].get("discr_ty") == "u8"]
+    if ctx.check(len(isw) == 1, "C05.D1.decode-total", "try_from:shape-inlined", "Frame::try_from (helpers inlined) switches once on the tag byte", b.span):
+        it = ib.term(isw[0])
+        iregs = K.exclusive_regions(ib, [x[1] for x in it["targets"]] + [it["otherwise"]], isw[0])
+        for val, tgt in it["targets"]:
+            reg = iregs[tgt]
+            cs = K.calls_in(ib, reg)
+            des = [c for c in cs if strip_generics(c.callee).startswith("bincode::") and c.dest is not None]
+            fed = flow.derived(ib, {c.dest["l"] for c in des}, calls="all") if des else set()
+            exits = [c for c in cs if strip_generics(c.callee) in ("core::ops::try_trait::Try::branch", "core::ops::try_trait::FromResidual::from_residual")
+                     and not any(op_local(a) in fed for a in c.args)]
+            errs = [s for _, _, pl_, rv, s in K.assigns_in(ib, reg) if rv["k"] == "agg" and rv.get("agg") == "adt" and rv.get("adt") == "core::result::Result" and rv.get("variant") == "Err"
+                    and not any(op_local(o) in fed for o in rv.get("ops", []))]
+            ctx.check(not exits and not errs, "C05.D1.decode-total", "try_from:extra-refusal:tag%d" % val,
+                      "Frame::try_from, tag %d: the only refusal is a payload that bincode cannot decode (%s)" % (val, "none here" if not des else "%d deserialize call(s)" % len(des)),
+                      (exits[0].span if exits else errs[0].get("span", b.span) if errs else b.span))
     # unknown tags must not build a frame
     aggs = K.aggregates(b, FRAME, regs[t["otherwise"]])
     ctx.check(not aggs, "C05.D1.unknown-tag", "try_from:unknown-tag-builds-frame",
@@ -164,6 +197,17 @@ def d2(ctx, F):
                     ops.append(("raw", on_payload, c.span))
                 elif n.startswith("bincode::") or n.startswith("bytes::buf::buf_mut::BufMut::put"):
                     ops.append(("other:" + n, on_payload, c.span))
+            # the payload measured / written is the frame's own: neither function edits it first (one of them normalising the
+            # payload makes the prefix disagree with the bytes that follow)
+            edits = []
+            for i, j, pl, rv, s in K.assigns_in(b, blocks):
+                if pl["l"] in der and pl["p"] and "*" not in pl["p"][:1]:
+                    edits.append(s.get("span", b.span))
+                if rv["k"] == "ref" and rv.get("mut") and rv["pl"]["l"] in der:
+                    edits.append(s.get("span", b.span))
+            ctx.check(not edits, "C05.D2.payload-unmodified", "%s-edits-payload:%s" % (tag, v),
+                      "%s: %s serialises the payload as it is in the frame (no store into it, no &mut of it)" % (v, b.path.rsplit("::", 1)[-1]),
+                      (edits or [b.span])[0])
             kinds.setdefault(v, {})[tag] = ops
             kinds[v].setdefault("has_payload", False)
             kinds[v]["has_payload"] = kinds[v]["has_payload"] or bool(bind)
@@ -255,6 +299,17 @@ def d1_serde_plain(ctx, F):
         ctx.touch(*bodies)
         ctx.check(not hooks, "C05.D1.serde-plain", "topicname-serde-hook:%s" % tr.rsplit("::", 1)[-1],
                   "TopicName's derived %s does not route through a validating conversion (%s)" % (tr.rsplit("::", 1)[-1], hooks or "none"))
+
+
+def d1_decoder_plain(ctx, F, prefix="C05.D1"):
+    """the frame decoder turns bytes into frames and nothing else: it applies no topic-name validation (the server must *see* an invalid
+    registration to answer it with INVALID_TOPIC_NAME; reserved names are legitimate in feature-gated builds)"""
+    tf = F.one_body(r"^<selium_protocol::frame::Frame as core::convert::TryFrom<\(u8, bytes::bytes_mut::BytesMut\)>>::try_from$")
+    ctx.touch(tf)
+    reg = F.region([tf])
+    hooks = sorted({c.name() for b in reg.values() for c in b.calls() if strip_generics(c.callee).startswith("selium_protocol::topic_name::TopicName::") or
+                    ("TopicName" in (c.full or "") and "TryFrom" in c.callee)})
+    ctx.check(not hooks, prefix + ".decoder-plain", "frame-decoder-validates", "Frame::try_from decodes without judging topic names (%s)" % (hooks or "no validation calls"), tf.span)
 
 
 def d3(ctx, F):
@@ -579,6 +634,7 @@ def d5_guard_exactness(ctx, F):
 def run(ctx):
     F = ctx.facts("quick")
     d1_serde_plain(ctx, F)
+    d1_decoder_plain(ctx, F)
     d5_guard_exactness(ctx, F)
     d1(ctx, F)
     d2(ctx, F)
